@@ -39,15 +39,20 @@ part "history" (E2 style): a measurement is a function of the renderable's CURRE
     shared Text measured alone afterwards must still measure like Text(s) (keys "shared/<slot>/...").
     The WT family (fixed width options below / above the available width x titles x expand) is in the tree part.
 
+    Round 4: a word is a maximal run of non-whitespace by str.isspace (where wrapping may break); part "textws" = all
+    strings over {a, U+3042, NBSP, U+3000, U+2003, space, newline} up to length 4 (thorough 6); family CON (trees of
+    3 / 4 nodes, multi-line / panel labels) is measured and rendered on the utf8, ascii-only and legacy_windows
+    consoles; part "bars" = C01's fine-grid Bar / ProgressBar cases measured at A = W and rendered at the reported values.
+
 Finding keys: "history/<kind>/measure-differs-from-fresh", "history/<kind>/<clause>",
 "range/<clause>/<kind of the deepest node whose own measurement is out of range>", "fit/<C01 blame key>" (e.g. "fit/table/leading"),
 "text/min", "text/max", "text/max/blank-lines", "text/wrap-at-max", "crash/<Type>/<file>:<function>".
 
 Measured (default 16 workers):
-    quick     27.6 k trees (incl. WT 672) + 9 331 strings + 12 126 histories (7 910 mutator + 4 216 shared-argument),
-              1 031 572 evaluations, 476 outcome signatures (216 non-trivial), ~440 CPU-s, 32 s wall (nearly idle)
-    thorough  ~141 k trees + 335 923 strings + ~230 k histories, ~14.9 M evaluations, ~3 500 CPU-s
-              (583 s wall under load, measured before the history / WT parts were added: 14 592 182 evaluations)
+    quick     27.9 k trees (incl. WT 672, CON 297 x 3 consoles) + 9 331 + 2 801 (non-ASCII whitespace) strings + 12 126
+              histories + 15 232 Bar / ProgressBar grid cases, 1 097 596 evaluations, 482 outcome signatures (222 non-trivial),
+              ~485 CPU-s (32 s wall nearly idle before the round-4 parts, which add ~10 CPU-s; 93 s wall at load 55-68)
+    thorough  not re-run after rounds 3 / 4 (last: 14 592 182 evaluations, ~3 400 CPU-s, 583 s wall under load)
 """
 import itertools
 import os
@@ -83,13 +88,17 @@ SIGMA = ["a", " ", gen.WIDE_LAST, "\n", "b", gen.ZERO_LAST]
 
 # families of gen.families(tier) used by the tree part, with their A-set
 TREE_FAMILIES = {
-    "quick": {"D1": A_FULL, "D2": A_SHORT, "D2x1": A_SHORT, "CH3": A_SHORT, "ROT": A_SHORT, "WT": A_FULL},
+    "quick": {"D1": A_FULL, "D2": A_SHORT, "D2x1": A_SHORT, "CH3": A_SHORT, "ROT": A_SHORT, "WT": A_FULL, "CON": A_SHORT},
     "thorough": {"D1": A_FULL, "D1x1": A_FULL, "D2": A_SHORT, "D2x2": A_SHORT, "D3": A_SHORT,
-                 "CH3": A_FULL, "CH4": A_SHORT, "WT": A_FULL},
+                 "CH3": A_FULL, "CH4": A_SHORT, "WT": A_FULL, "CON": A_FULL},
 }
+ALL_CONSOLE_FAMILIES = ("CON",)      # also measured / rendered on the ascii-only and legacy_windows consoles
 TREES_PER_SHARD = {"quick": 200, "thorough": 1500}
 TEXT_LEN = {"quick": 5, "thorough": 7}
 TEXT_OPT_LEN = {"quick": 4, "thorough": 5}
+# words separated by non-ASCII whitespace: NBSP, ideographic space (2 cells), em space
+WS_SIGMA = ["a", "\u3042", "\u00a0", "\u3000", "\u2003", " ", "\n"]
+WS_LEN = {"quick": 4, "thorough": 6}
 TEXT_OPTS = [("justify", "left"), ("justify", "center"), ("justify", "right"), ("justify", "full"),
              ("overflow", "fold"), ("overflow", "crop"), ("overflow", "ellipsis"), ("no_wrap", True)]
 
@@ -143,7 +152,7 @@ def check_tree(d, aset, res, ckind="utf8", only_A=None):
     fits = {}       # v -> widest line when rendered at v
     kind = d[0]
     for A in (aset if only_A is None else [only_A]):
-        case = {"part": "tree", "tree": d, "A": A}
+        case = {"part": "tree", "tree": d, "A": A, "console": ckind}
         try:
             m = measure(d, A, ckind)
         except Exception as e:  # noqa: BLE001
@@ -177,10 +186,45 @@ def check_tree(d, aset, res, ckind="utf8", only_A=None):
             judged.append((which, got == v))
             if got > v:
                 md, mw, key = c01.minimise(d, v, ckind)
-                res.violate("fit/" + key, {"part": "fit", "tree": md, "W": mw},
+                res.violate("fit/" + key, {"part": "fit", "tree": md, "W": mw, "console": ckind},
                             "Measurement.get(.., %d) = %r; rendering at the reported %s %d gives a line of %d cells "
                             "(struct_min %d); minimised from %s" % (A, tuple(m), which, v, got, sm, c01._short(d)))
         res.sig((kind, m[1] == A, m[0] == m[1], m[0] >= sm, tuple(judged)), nontrivial=bool(judged))
+
+
+# ------------------------------------------------------------------ Bar / ProgressBar on a fine grid
+BAR_WIDTHS_C09 = (1, 2, 3, 5, 8, 10, 20)
+
+
+def check_bar_measure(case, res):
+    """C01's fine-grid Bar / ProgressBar cases: measure at A = W, range, and render at the reported max / min."""
+    from rich.measure import Measurement
+    con = gen.make_console(case["console"])
+    A = case["W"]
+
+    def make():
+        if case["what"] == "bar":
+            from rich.bar import Bar
+            return Bar(case["size"], case["begin"], case["end"], width=case.get("width"))
+        from rich.progress_bar import ProgressBar
+        return ProgressBar(total=case["total"], completed=case["completed"], width=case.get("width"),
+                           pulse=case.get("pulse", False), animation_time=0.0)
+    try:
+        m = Measurement.get(con, make(), A)
+        res.evaluations += 1
+        prob = _range_problem(m, A)
+        if prob:
+            res.violate("range/%s/%s" % (prob, case["what"]), case, "Measurement.get(.., %d) = %r" % (A, tuple(m)))
+            return
+        for which, v in (("max", m[1]), ("min", m[0])):
+            if v >= 1:
+                ws = gen.render_widths(con, make(), v)
+                if ws and max(ws) > v:
+                    res.violate("fit/%s/fine-grid" % case["what"], case, "Measurement.get(.., %d) = %r; rendering at the "
+                                "reported %s %d gives a line of %d cells" % (A, tuple(m), which, v, max(ws)))
+        res.sig(("bars", case["what"], m[0] == m[1], case.get("width") is not None))
+    except Exception as e:  # noqa: BLE001
+        res.violate(c01.crash_key(e), case, "%s: %s" % (type(e).__name__, e))
 
 
 # ------------------------------------------------------------------ text part
@@ -192,7 +236,10 @@ def _strings(maxlen):
 
 def _ref(s):
     """(widest word or None when there is no word, widest line)"""
-    words = [w for w in s.replace("\n", " ").split(" ") if w]
+    # a word = a maximal run of non-whitespace characters; whitespace = str.isspace (Python's definition,
+    # which is also where wrapping may break: the regex class \\s of rich._wrap)
+    words = "".join(" " if c.isspace() else c for c in s).split(" ")
+    words = [w for w in words if w]
     lines = s.split("\n")
     return (max(sw(w) for w in words) if words else None), max(sw(ln) for ln in lines)
 
@@ -542,6 +589,9 @@ def plan(tier, seed):
     shards += [{"part": "text", "i": i, "n": nt} for i in range(nt)]
     no = 4 if tier == "quick" else 16
     shards += [{"part": "textopt", "i": i, "n": no} for i in range(no)]
+    nw = 2 if tier == "quick" else 16
+    shards += [{"part": "textws", "i": i, "n": nw} for i in range(nw)]
+    shards += [{"part": "bars", "W": W} for W in BAR_WIDTHS_C09]
     nh = 4 if tier == "quick" else 32
     shards += [{"part": "history", "i": i, "n": nh} for i in range(nh)]
     return shards
@@ -557,7 +607,7 @@ def _wrap_family(tier):
 
 def run_shard(sh, tier, seed):
     res = Result()
-    i, n = sh["i"], sh["n"]
+    i, n = sh.get("i", 0), sh.get("n", 1)
     part = sh["part"]
     if part == "tree":
         fam = gen.families(tier, seed)[sh["fam"]]
@@ -569,6 +619,9 @@ def run_shard(sh, tier, seed):
                 res.capped = True
                 break
             check_tree(d, aset, res)
+            if fam["name"] in ALL_CONSOLE_FAMILIES:
+                for ckind in ("ascii", "legacy"):
+                    check_tree(d, aset, res, ckind=ckind)
             res.count("trees")
             res.count("trees_" + fam["name"])
             if idx % 1999 == 0:
@@ -605,6 +658,20 @@ def run_shard(sh, tier, seed):
             for name, val in TEXT_OPTS:
                 check_text(s, A_SHORT, res, opts={name: val})
             res.count("strings_with_options")
+    elif part == "textws":
+        k = 0
+        for L in range(WS_LEN[tier] + 1):
+            for tup in itertools.product(WS_SIGMA, repeat=L):
+                k += 1
+                if k % n != i:
+                    continue
+                check_text("".join(tup), A_SHORT, res)
+                res.count("strings_ws")
+    elif part == "bars":
+        for case in c01.bar_cases(sh["W"]):
+            if case["console"] == "utf8":
+                check_bar_measure(case, res)
+                res.count("bar_cases")
     elif part == "history":
         for idx, case in enumerate(gen_histories(tier)):
             if idx % n != i:
@@ -624,8 +691,12 @@ def describe(tier, seed, res):
     parts = ["%s=%d trees (A-set of %d)" % (f["name"], res.counters.get("trees_" + f["name"], 0),
                                             len(_aset(tier, f["name"]))) for f in fams]
     return {
-        "rule": ("tree part: families [%s] of vf/gen.py (definitions in gen.families.__doc__) plus %d D1 default-option "
+        "rule": (("tree part: families [%s] of vf/gen.py (definitions in gen.families.__doc__) plus %d D1 default-option "
                  "trees with every leaf wrapped in NoMeasure / Cast; A-sets: full = 0..24 u {40,80,200}, short = %s. "
+                 "CON is measured / rendered on the utf8, ascii-only and legacy_windows consoles. textws: all strings over "
+                 "{a, U+3042, NBSP, U+3000, U+2003, space, newline} up to length @WS@ x short A-set (a word "
+                 "= maximal run of non-str.isspace characters). bars: Bar / ProgressBar on the 1/32-cell grid of C01 for W in "
+                 "@BARS@ measured at A = W, rendered at the reported values. "
                  "text part: all %d strings over {a, space, U+115F-like wide range end, newline, b, U+036F-like zero-width range end} of length <= %d x full A-set, and "
                  "strings of length <= %d x short A-set x {Cast, 8 single Text options}. An evaluation is one "
                  "Measurement.get (or one wrap-at-maximum render); %d feedback renders were judged. Non-trivial: a "
@@ -638,7 +709,8 @@ def describe(tier, seed, res):
                  "= %d histories; non-trivial when a mutation follows a measure / render (shared: more than one event)."
                  % ("; ".join(parts), res.counters.get("trees_wrapped", 0), list(A_SHORT),
                     res.counters.get("strings", 0), TEXT_LEN[tier], TEXT_OPT_LEN[tier], res.counters.get("renders", 0),
-                    len(hist_subjects()), HIST_DEPTH[tier], res.counters.get("histories", 0))),
+                    len(hist_subjects()), HIST_DEPTH[tier], res.counters.get("histories", 0))
+                 ).replace("@WS@", str(WS_LEN[tier])).replace("@BARS@", str(list(BAR_WIDTHS_C09)))),
         "assumptions": [
             "struct_min (vf/structmin.py) errs on the large side; reported values below it are not rendered",
             "a text without any word has no minimum clause; tabs are excluded from the text part",
@@ -655,9 +727,11 @@ def replay(case):
     res = Result()
     part = case.get("part")
     if part == "tree":
-        check_tree(case["tree"], None, res, only_A=case["A"])
+        check_tree(case["tree"], None, res, ckind=case.get("console", "utf8"), only_A=case["A"])
+    elif part == "bars":
+        check_bar_measure(case, res)
     elif part == "fit":
-        c01.check_case(case["tree"], case["W"], "utf8", res)
+        c01.check_case(case["tree"], case["W"], case.get("console", "utf8"), res)
         return [("fit/" + k if not k.startswith("crash/") else k, v[2]) for k, v in sorted(res.violations.items())]
     elif part == "history":
         check_history(case, res)
